@@ -6,7 +6,7 @@
    on every run).  Outcomes: DOk / DErr / DPanic (todo!, index, over-wide shift) / DUnbounded
    (a loop whose length is not bounded by the input).  The float conversions of the host are
    parameters; nothing here depends on them. *)
-From PV Require Import Base MachineInt VarintParams GenLoops Varint DataModel Schema SchemaConv Dyn JsonOf WireFormat VarintFacts DynFacts DynReenc DynArmDecl GenDynArms DynArms DynCompositeExpected GenDynComposite DynArmFacts DynArmTotal.
+From PV Require Import Base MachineInt VarintParams GenLoops Varint DataModel Schema SchemaConv Dyn JsonOf WireFormat VarintFacts DynFacts DynReenc DynArmDecl GenDynArms DynArms DynCompositeExpected GenDynComposite GenDynHelpers DynArmFacts DynArmTotal.
 Open Scope N_scope.
 
 (* decoding never panics, whatever the schema, whatever the bytes; what it hands on to the
@@ -100,6 +100,13 @@ Theorem C18_composite_arms_are_the_source :
   dyn_ser_composite_holes = dyn_ser_composite_expected /\ dyn_de_composite_holes = dyn_de_composite_expected.
 Proof. exact dyn_composite_is_source. Qed.
 
+(* ... and so are the helpers around them (to_stdvec_dyn / from_slice_dyn, Option::right and
+   From<TryFromIntError> with their error kind, the bounds-checked take_one / take_n) *)
+Theorem C18_helpers_are_the_source :
+  dynser_fns_matched = [[102; 114; 111; 109]; [114; 105; 103; 104; 116]; [116; 111; 95; 115; 116; 100; 118; 101; 99; 95; 100; 121; 110]] /\
+  dynde_fns_matched = [[102; 114; 111; 109; 95; 115; 108; 105; 99; 101; 95; 100; 121; 110]; [114; 105; 103; 104; 116]; [116; 97; 107; 101; 95; 111; 110; 101]].
+Proof. exact dyn_helpers_are_source. Qed.
+
 Print Assumptions C18_decode_total.
 Print Assumptions C18_encode_total.
 Print Assumptions C18_private_reader.
@@ -108,3 +115,4 @@ Print Assumptions C18_encoder_arms_never_panic.
 Print Assumptions C18_decoder_arms_never_panic.
 Print Assumptions C18_decoder_arms_are_the_model.
 Print Assumptions C18_composite_arms_are_the_source.
+Print Assumptions C18_helpers_are_the_source.
